@@ -13,7 +13,7 @@ Structural clauses decided (DESIGN.md section 5/C11):
 """
 import ast
 
-from ..engine import Analysis, is_call_to, is_suspension, short, where_fn, call_receiver
+from ..engine import Analysis, is_call_to, is_suspension, short, where_fn, call_receiver, key_truth
 from ..model import AnalysisError
 from .. import rules
 
@@ -204,6 +204,29 @@ def run(check, an: Analysis):
                        'channel closed (%s)' % (empty, closed), path=rules.path_lines(path))
     check.instance('T', 'aiter:ends', n_end > 0, where_fn(aiter.fn),
                    'iteration over a closed channel ends')
+    # a consumer only ever waits for the notification after it saw -- in the same atomic
+    # block -- that the channel is still open: close() wakes the consumers waiting at that
+    # moment, nobody wakes one that starts to wait afterwards
+    for callee in (aiter, await_):
+        n_wait, wait_ok, bad = 0, True, None
+        for path in an.paths(callee):
+            for index, event in enumerate(path.events):
+                if not (event.kind == 'susp' and event.depth == 0 and is_suspension(event)
+                        and event.get('expr') is not None and rules.value_text(
+                            path, index, event['expr']).startswith('self._notification')):
+                    continue
+                n_wait += 1
+                block = rules.atomic_block(path, index)
+                open_ = any(e.kind == 'test' and e.get('key') == ('truth', 'self._closed')
+                            and key_truth(e) is False for e in block)
+                if not open_:
+                    wait_ok, bad = False, bad or (path, index)
+        check.instance('T', '%s:waits-only-while-open' % callee.fn.name,
+                       wait_ok and n_wait > 0, where_fn(callee.fn),
+                       'every wait for the notification follows, without a suspension in '
+                       'between, a test that the channel is not closed (%d waits on paths)'
+                       % n_wait, path=rules.path_lines(*bad) if bad else None,
+                       analysed=n_wait)
     for path in an.paths(await_):
         if path.kind == 'raise' and path.outcome[1].cls == CLOSED:
             event = [e for e in path.events if e.kind == 'raise'][-1]
